@@ -63,6 +63,7 @@ def run(chk):
     chk.rule("R3", "case expressions are compiled branch by branch in order, (condition -> when, value -> then), default only if present")
     chk.rule("R4", "every catalogue operator has an API construction site; generated methods exist for generate_expr_method operators")
     chk.rule("R5", "sign analysis: Polars emulation of truncating // and % yields sign(lhs)*sign(rhs) resp. sign(lhs)")
+    chk.rule("R6", "nullness analysis: horizontal min / max emulations on strict engines return NULL iff all arguments are NULL")
 
     ce = repo.mod("tree.col_expr")
     fn = repo.mod("pipe.functions")
@@ -206,6 +207,30 @@ def run(chk):
 
     # ---- R5 sign analysis
     signs.check_polars_div_mod(chk, "R5")
+
+    # ---- R6 nullness analysis of the null-skipping emulations
+    from .. import nulls
+
+    strict_engines = {"SqliteImpl": "SQLite's scalar MAX / MIN return NULL if any argument is NULL",
+                      "IbmDb2Impl": "DB2's GREATEST / LEAST return NULL if any argument is NULL"}  # fmt: skip
+    n6 = 0
+    for store, why in strict_engines.items():
+        for opvar in ("horizontal_max", "horizontal_min"):
+            rs = [r for r in regs if r.store == store and r.opvar == opvar]
+            chk.ob("R6", chk.repo.mod("backend.sql"), None, f"{store} overrides ops.{opvar}", bool(rs),
+                   f"{store} has no own implementation of `{cat.op(opvar).name}`: {why}, so the inherited GREATEST / LEAST would not skip nulls")  # fmt: skip
+            for r in rs:
+                n6 += 1
+                try:
+                    res = nulls.check_null_skipping(r.func)
+                except nulls.Undecided as u:
+                    chk.note(f"R6: nullness analysis of {store}.{r.func.name} undecided ({u}); no verdict for this implementation")
+                    continue
+                bad = [(t, g, e) for t, g, e in res if g != e]
+                chk.ob("R6", r.module, r.func, f"{store}.{r.func.name}: result is NULL iff all arguments are NULL ({len(res)} nullness cases)", not bad,
+                       f"`{r.func.name}` ({store}, {cat.op(opvar).name}) does not skip nulls: for arguments {bad[0][0] if bad else ''} the result is "
+                       f"{bad[0][1] if bad else ''} but documented {bad[0][2] if bad else ''} ({len(bad)} of {len(res)} nullness cases)")  # fmt: skip
+    chk.floor("R6", "null-skipping emulations analysed", n6, 4)
 
     chk.assumptions += [
         "Polars and SQLAlchemy overload the Python operators homomorphically (x + y builds an addition)",
